@@ -46,12 +46,15 @@ pub struct Structural {
 }
 
 pub fn structural<T: ReadTxn>(txn: &T) -> Structural {
-    use yrs::verif::*;
-    let blocks = blocks(txn);
-    let roots = roots(txn);
+    structural_from(yrs::verif::blocks(txn), yrs::verif::roots(txn), yrs::verif::skips(txn))
+}
+
+/// the same reconstruction from dumped data (used for traces recorded by hook H3)
+pub fn structural_from(blocks: Vec<yrs::verif::BlockInfo>, roots: Vec<yrs::verif::RootInfo>, skip_ranges: Vec<(u64, u32, u32)>) -> Structural {
+    use yrs::verif::BranchInfo;
     let mut s = Structural::default();
     s.nblocks = blocks.len();
-    s.holes = skips(txn);
+    s.holes = skip_ranges;
     // index: (client) -> vec of (clock, len, idx)
     let mut by_client: HashMap<u64, Vec<(u32, u32, usize)>> = HashMap::new();
     for (i, b) in blocks.iter().enumerate() {
